@@ -801,6 +801,8 @@ func (fr *Frame) execTypeAssert(x *ssa.TypeAssert, st *State) error {
 	ok = c.sc.define("taok", ok)
 	if x.CommaOk {
 		r := c.sc.define(x.Name(), ite(ok, res, c.zero(x.AssertedType)))
+		// a value taken out of an interface is a value of its type (0 <= len <= cap for slices, ...)
+		c.wellFormed(r, x.AssertedType)
 		fr.env[x] = &Val{T: []Term{r, ok}}
 		return nil
 	}
